@@ -1133,6 +1133,56 @@ func sMainSendsBuffered(c *Ctx, rule string) {
 }
 
 
+// S-FASTPATH: the transport may run the follower's AppendEntries handler on
+// its own goroutine (heartbeat fast path), concurrently with the main loop.
+// That is only sound for requests that cannot touch the log, the commit index
+// or the configuration: no entries, no previous-entry claim, no leader commit.
+// Anything else must go through consumeCh to the main loop.
+func sHeartbeatFastPath(c *Ctx, rule string) {
+	fn := c.Fn(rule, "(*NetworkTransport).handleCommand")
+	if fn == nil {
+		return
+	}
+	req := "var(AppendEntriesRequest)"
+	r := c.Run(&engine.Automaton{Fn: fn, Tracks: []engine.Track{
+		engine.PredRel("prevIdx0", req+".PrevLogEntry", "0", engine.EQ),
+		engine.PredRel("prevTerm0", req+".PrevLogTerm", "0", engine.EQ),
+		engine.PredRel("noEntries", "len("+req+".Entries)", "0", engine.EQ),
+		engine.PredRel("noCommit", req+".LeaderCommitIndex", "0", engine.EQ),
+	}})
+	n := 0
+	engine.EachInstr(fn, func(in ssa.Instruction) {
+		cc := engine.CallCommonOf(in)
+		if cc == nil || c.P.CalleeName(cc) != "dyn:recv.heartbeatFn" {
+			return
+		}
+		n++
+		c.RequireAt(r, rule, "handleCommand:fast-path-only-for-empty-heartbeats", in, "the handler is run on the transport's goroutine only for an AppendEntries request with PrevLogEntry = 0, PrevLogTerm = 0, no entries and LeaderCommitIndex = 0 (it cannot touch log, commit index or configuration)", func(v engine.View) bool {
+			return v.T("prevIdx0") && v.T("prevTerm0") && v.T("noEntries") && v.T("noCommit")
+		})
+	})
+	if n != 1 {
+		c.Bad(rule, "handleCommand:fast-path-call", c.P.Pos(fn.Pos()), "one call of the heartbeat handler", fmt.Sprintf("%d", n))
+	}
+	// the handler is called nowhere else, and only processHeartbeat is installed
+	if f := c.Field(rule, "NetworkTransport", "heartbeatFn"); f != nil {
+		k := 0
+		for _, g := range c.P.AllFuncs() {
+			for _, h := range engine.WithLits(g) {
+				engine.EachInstr(h, func(in ssa.Instruction) {
+					if cc := engine.CallCommonOf(in); cc != nil && strings.HasPrefix(c.P.CalleeName(cc), "dyn:") && strings.HasSuffix(c.P.CalleeName(cc), ".heartbeatFn") {
+						k++
+						if c.P.Name(h) != "(*NetworkTransport).handleCommand" {
+							c.Check(rule, "heartbeatFn:called-in "+c.P.Name(h), c.P.InstrPos(in), "the heartbeat handler is invoked by handleCommand only", false, "called in "+c.P.Name(h), 1)
+						}
+					}
+				})
+			}
+		}
+		_ = k
+	}
+}
+
 // S-ASYNC: asyncNotifyCh is a non-blocking send – an edge-triggered wake-up
 // that is only kept for a receiver who is not waiting right now if the channel
 // has room for it. Every channel handed to asyncNotifyCh (stepDown, commitCh,
